@@ -237,7 +237,7 @@ pub fn build_by_item_impl(attr: TokenStream, item_impl: &ItemImpl) -> Result<Tok
 /// The `Self` of `impl ... for &T` has an anonymous lifetime, which can be written only in the
 /// impl header: bounds mentioning it become higher-ranked (`for<'__a> &'__a T: Trait`).
 fn expand_self_in_generics(generics: &Generics, self_ty: &Type) -> Generics {
-    let mut to = self_ty.clone();
+    let mut to = ungroup(self_ty).clone();
     match &mut to {
         Type::Reference(tr) if tr.lifetime.is_none() => tr.lifetime = Some(parse_quote!('__a)),
         _ => return expand_self(generics, self_ty),
